@@ -26,7 +26,8 @@ EXTENDS Integers, Sequences, FiniteSets, TLC, Json
 CONSTANTS G,        \* goroutines per workload (2 or 3)
           Kinds,    \* subset of DOMAIN OpsOf to enumerate
           Lazy,     \* implementation layer: set of "kind/op" that normalise the shared object in place
-          Cached    \* implementation layer: set of "kind/op" that memoise in PACKAGE-LEVEL state keyed by the operand
+          Cached,   \* implementation layer: set of "kind/op" that memoise in PACKAGE-LEVEL state keyed by the operand
+          SharedBuf \* implementation layer: set of "kind/op" that collect entropy in a buffer kept IN the shared object
 
 OpsOf ==       \* per object kind the read-only method set, in a fixed order
   [point    |-> <<"MarshalBinary", "String", "Equal", "EqualArg", "Clone", "Data", "MarshalTo", "SetArg",
@@ -39,7 +40,13 @@ OpsOf ==       \* per object kind the read-only method set, in a fixed order
                   "AggregatePublicKeys">>,
    cosimask |-> <<"Mask", "CountEnabled", "IndexEnabled", "KeyEnabled", "Verify">>,
    pubpoly  |-> <<"Eval", "Check", "Commit", "Info", "Equal", "Shares">>,
-   verifier |-> <<"Verify", "VerifyWrongMsg", "MarshalKey">>]
+   verifier |-> <<"Verify", "VerifyWrongMsg", "MarshalKey">>,
+   \* ONE random stream object (random.New() on the default source, random.New(readers...), the stream of a suite
+   \* constructed WithRand) drawn from by all goroutines
+   stream   |-> <<"Draw", "DrawLong", "PickScalar">>,
+   \* ONE proof.Predicate tree (Rep / And / Or; a Rep object that is part of two statements); every goroutine
+   \* builds its OWN Prover / Verifier from it and runs HashProve / HashVerify
+   predicate |-> <<"VerifyRep", "VerifyS1", "VerifyS2", "VerifyOr", "ProveS1", "ProveS2", "ProveOr", "String">>]
 
 (* representations of the shared object:                                     *)
 (*  "decoded" / "arith"  a value freshly decoded / left by one arithmetic    *)
@@ -52,7 +59,12 @@ OpsOf ==       \* per object kind the read-only method set, in a fixed order
 (*            written -- and a stream obtained from it is used concurrently  *)
 (*  "warm"    a suite on which RandomStream() was called once by the         *)
 (*            constructing goroutine; that ONE stream object is shared       *)
-RepsOf(k) == CASE k \in {"point", "scalar"} -> {"decoded", "arith"}
+(*  "unreduced" a scalar loaded from bytes that encode a value >= the group  *)
+(*            order (implementations whose decoder accepts them), new object *)
+(*            per repetition: its first Equal / Marshal / String / operand   *)
+(*            uses are concurrent -- where a lazy reduction would be written *)
+RepsOf(k) == CASE k = "point"  -> {"decoded", "arith"}
+               [] k = "scalar" -> {"decoded", "arith", "unreduced"}
                [] k = "pairing" -> {"decoded", "arith", "fresh"}
                [] k = "suite"   -> {"fresh", "warm"}
                [] OTHER         -> {"fresh"}
@@ -75,8 +87,10 @@ VARIABLES wl,      \* the workload: [kind, rep, objs, ops (one per goroutine)]
           sh,      \* shared object -> its representation: "raw" | "half" | "norm"
           cache,   \* key held by the package-level cache: "A" | "B"
           seen,    \* goroutine -> what its reads saw so far
+          buf,     \* entropy buffer kept in the shared stream object: goroutine whose entropy it holds (0: none)
+          drew,    \* goroutine -> whose entropy its draw was derived from (0: not drawn yet)
           wr, rd   \* object (A, B, pkg) -> goroutines that have written / read it so far
-vars == <<wl, pc, sh, cache, seen, wr, rd>>
+vars == <<wl, pc, sh, cache, seen, buf, drew, wr, rd>>
 Gs == 1..G
 ObjOf(g) == IF wl.objs = "same" \/ g % 2 = 1 THEN "A" ELSE "B"
 
@@ -85,7 +99,16 @@ ObjOf(g) == IF wl.objs = "same" \/ g % 2 = 1 THEN "A" ELSE "B"
 (* normalising one first rewrites the shared object in two steps; a          *)
 (* memoising one first looks its operand up in the package-level cache       *)
 (* ("c": hit = read, miss = rebuild = write) and then uses the table ("u")   *)
+(* a draw from a random stream collects fresh entropy ("e": every call gets *)
+(* its own) and derives the key stream from it ("h"); in the requirement     *)
+(* layer the entropy sits in a private buffer, in the implementation layer   *)
+(* SharedBuf in a buffer that is part of the shared stream object            *)
 Prog(k, op) ==
+  IF k = "stream"
+  THEN IF (k \o "/" \o op) \in SharedBuf
+       THEN << <<"r", "shared">>, <<"e", "shared">>, <<"h", "shared">>, <<"w", "priv">> >>
+       ELSE << <<"r", "shared">>, <<"e", "priv">>, <<"h", "priv">>, <<"w", "priv">> >>
+  ELSE
   (IF (k \o "/" \o op) \in Cached THEN << <<"c", "pkg">>, <<"u", "pkg">> >> ELSE <<>>) \o
   (IF (k \o "/" \o op) \in Lazy
    THEN << <<"w", "shared">>, <<"w", "shared">>, <<"r", "shared">>, <<"r", "shared">>, <<"w", "priv">> >>
@@ -96,9 +119,10 @@ Init == \E k \in Kinds : \E r \in RepsOf(k) : \E ob \in ObjsOf(k, r) : \E idx \i
           /\ \A g \in 1..(G - 1) : idx[g] <= idx[g + 1]
           /\ wl = [kind |-> k, rep |-> r, objs |-> ob, ops |-> [g \in Gs |-> OpsOf[k][idx[g]]]]
           /\ pc = [g \in Gs |-> 0]
-          /\ sh = [o \in {"A", "B"} |-> IF r \in {"arith", "fresh"} THEN "raw" ELSE "norm"]  \* nothing normalised / created yet
+          /\ sh = [o \in {"A", "B"} |-> IF r \in {"arith", "fresh", "unreduced"} THEN "raw" ELSE "norm"]  \* nothing normalised / created yet
           /\ cache = "A"        \* an earlier (sequential) use may have left an EQUAL key: with one object every lookup hits
           /\ seen = [g \in Gs |-> <<>>]
+          /\ buf = 0 /\ drew = [g \in Gs |-> 0]
           /\ wr = [o \in Objs |-> {}] /\ rd = [o \in Objs |-> {}]
 
 Access(g) ==
@@ -109,20 +133,27 @@ Access(g) ==
      /\ CASE a = <<"w", "shared">> ->
                /\ sh' = [sh EXCEPT ![o] = IF @ = "raw" THEN "half" ELSE "norm"]      \* X := X/Z ... Z := 1
                /\ wr' = [wr EXCEPT ![o] = @ \cup {g}]
-               /\ UNCHANGED <<seen, rd, cache>>
+               /\ UNCHANGED <<seen, rd, cache, buf, drew>>
           [] a = <<"r", "shared">> ->
                /\ seen' = [seen EXCEPT ![g] = Append(@, sh[o])]
                /\ rd' = [rd EXCEPT ![o] = @ \cup {g}]
-               /\ UNCHANGED <<sh, wr, cache>>
+               /\ UNCHANGED <<sh, wr, cache, buf, drew>>
           [] a = <<"c", "pkg">> ->            \* lookup: hit reads the key, miss rebuilds the table for its own operand
                /\ IF cache = o THEN rd' = [rd EXCEPT !["pkg"] = @ \cup {g}] /\ UNCHANGED <<wr, cache>>
                   ELSE wr' = [wr EXCEPT !["pkg"] = @ \cup {g}] /\ cache' = o /\ UNCHANGED rd
-               /\ UNCHANGED <<sh, seen>>
+               /\ UNCHANGED <<sh, seen, buf, drew>>
           [] a = <<"u", "pkg">> ->            \* use the table: correct only if it still belongs to the own operand
                /\ seen' = [seen EXCEPT ![g] = Append(@, IF cache = o THEN sh[o] ELSE "half")]
                /\ rd' = [rd EXCEPT !["pkg"] = @ \cup {g}]
-               /\ UNCHANGED <<sh, wr, cache>>
-          [] OTHER -> UNCHANGED <<sh, cache, seen, wr, rd>>
+               /\ UNCHANGED <<sh, wr, cache, buf, drew>>
+          [] a = <<"e", "priv">> ->           \* fresh entropy into a private buffer
+               /\ drew' = [drew EXCEPT ![g] = g] /\ UNCHANGED <<sh, cache, seen, buf, wr, rd>>
+          [] a = <<"e", "shared">> ->         \* fresh entropy into the buffer inside the shared stream object
+               /\ buf' = g /\ wr' = [wr EXCEPT ![o] = @ \cup {g}] /\ UNCHANGED <<sh, cache, seen, drew, rd>>
+          [] a = <<"h", "shared">> ->         \* derive the key stream from whatever the shared buffer holds now
+               /\ drew' = [drew EXCEPT ![g] = buf] /\ rd' = [rd EXCEPT ![o] = @ \cup {g}]
+               /\ UNCHANGED <<sh, cache, seen, buf, wr>>
+          [] OTHER -> UNCHANGED <<sh, cache, seen, buf, drew, wr, rd>>
      /\ UNCHANGED wl
 Next == \E g \in Gs : Access(g)
 Spec == Init /\ [][Next]_vars
@@ -137,6 +168,10 @@ Finished(g) == pc[g] = Len(Prog(wl.kind, wl.ops[g]))
 (* run alone an operation sees one consistent representation                 *)
 ResultsSequential == \A g \in Gs : Finished(g) =>
                         (\A i, j \in 1..Len(seen[g]) : seen[g][i] = seen[g][j]) /\ (\A i \in 1..Len(seen[g]) : seen[g][i] # "half")
+(* draws of different goroutines from one shared stream never coincide: each *)
+(* is derived from the entropy collected by its own call                     *)
+DrawsDistinct == \A g1, g2 \in Gs : (g1 # g2 /\ drew[g1] # 0) => drew[g1] # drew[g2]
+
 TypeOK == (\A o \in {"A", "B"} : sh[o] \in {"raw", "half", "norm"}) /\ cache \in {"A", "B"} /\ \A g \in Gs : pc[g] \in 0..7
 
 Emit == (\A g \in Gs : pc[g] = 0) =>
